@@ -649,6 +649,7 @@ VIEW View
 INVARIANT NoRace
 INVARIANT LockOK
 INVARIANT CacheResults
+INVARIANT CachesSeparate
 CONSTRAINT Emit
 CHECK_DEADLOCK FALSE
 """
@@ -724,14 +725,16 @@ def check_c21(tier, seed, work):
     cmd = [os.path.join(bindir, "replay"), "concur", "-in", out["cache"], "-out", res_path, "-corpus", os.path.join(vf.SCHEMAS, "variants.json"),
            "-pkgs", ",".join(cfgs), "-seed", str(seed), "-rounds", str(rounds)]
     p = vf.subprocess.run(cmd, cwd=h, stdout=vf.subprocess.PIPE, stderr=vf.subprocess.STDOUT, text=True, env=dict(os.environ, GORACE="halt_on_error=0"))
-    if not os.path.exists(res_path):
-        raise Infra("concur produced no result (exit %d):\n%s" % (p.returncode, p.stdout[-3000:]))
-    r = json.load(open(res_path))
-    if r.get("infra"):
-        raise Infra("concur: %s" % "; ".join(r["infra"][:5]))
-    violations = r.get("violations") or []
+    import re as _re
+    violations = []
+    fatal = _re.search(r"fatal error: (concurrent map[^\n]*)", p.stdout)
+    if fatal:
+        # the Go runtime killed the process: unsynchronised map access in the code under test
+        frames = [f for f in _re.findall(r"^(github.com/openconfig/ygot[\w./()*-]+)\(", p.stdout[fatal.start():], _re.M)][:3]
+        violations.append(dict(property="C21", sig=dict(conjunct="fatal-concurrent-map", where="|".join(frames[:2])),
+                               detail="the Go runtime aborted the concurrent scenario: %s; frames: %s" % (fatal.group(1), ", ".join(frames)),
+                               case=dict(sub="race", report=p.stdout[fatal.start():fatal.start() + 4000])))
     if "WARNING: DATA RACE" in p.stdout:
-        import re as _re
         blocks = p.stdout.split("WARNING: DATA RACE")[1:]
         seen = set()
         for b in blocks:
@@ -742,7 +745,17 @@ def check_c21(tier, seed, work):
                 continue
             seen.add(key)
             violations.append(dict(property="C21", sig=dict(conjunct="data-race", where=key), detail="the race detector reports a data race: " + b[:1500], case=dict(sub="race", report=b[:4000])))
-    elif p.returncode not in (0, 1):
+    if not os.path.exists(res_path):
+        if violations:
+            r = dict(evaluated=1, counters={"aborted_by_runtime": 1}, violations=[])
+        else:
+            raise Infra("concur produced no result (exit %d):\n%s" % (p.returncode, p.stdout[-3000:]))
+    else:
+        r = json.load(open(res_path))
+    if r.get("infra"):
+        raise Infra("concur: %s" % "; ".join(r["infra"][:5]))
+    violations += r.get("violations") or []
+    if not violations and p.returncode not in (0, 1):
         raise Infra("concur exit %d:\n%s" % (p.returncode, p.stdout[-3000:]))
     if r["evaluated"] == 0:
         raise Infra("concur evaluated nothing")
